@@ -43,9 +43,15 @@ def divFloor (a b : LB) : XR :=
 def divCeil (a b : LB) : XR :=
   if LB.isZero b then .err "Division by zero" else liftR (LB.divCeil a b)
 
+/-- `pow` (int.rs:153): an exponent beyond the machine word is an error value unless the base is 0, 1 or -1 -/
 def pow (a b : LB) : XR :=
   if LB.isNegative b then .err "cannot raise integer to a negative power"
   else if LB.isZero b && LB.isZero a then .err "cannot raise zero to a zero power"
+  else if (LB.toU64 b).isNone then
+    match LB.abs a with
+    | .error e => .panic e
+    | .ok aa =>
+      if !(LB.isZero a || LB.isOne aa) then .err "exponent too large" else liftR (LB.pow a b)
   else liftR (LB.pow a b)
 
 def lt (a b : LB) : XR := .bool (LB.cmp a b == .lt)
